@@ -12,7 +12,7 @@ import json
 import random
 import sys
 
-from .. import adeck, core, tlc
+from .. import adeck, core, pipeline, tlc
 from . import common_univ
 
 KINDS = {'spurious', 'unowned', 'multi', 'wrongid', 'wrongprov', 'crash', 'lattice_keys_inconsistent',
@@ -96,6 +96,11 @@ def main(prop='C06', module='GenLat'):
             chk.violation(sig, {'text': rec['text'], 'opts': meta[tid]['opts'], 'error': err, 'deck': deck,
                                 'clauses': 'owner,compo', 'point2': deck['pts'][k - 1] if k else None})
     chk.cov['distinct_nontrivial'] = nt
+    # per-pass contracts (Pipeline.tla) on a subset: lattice development, fill, inlining, conversion, pruning
+    sub = [nd[t] for t in sorted(nd)][::max(1, len(nd) // (600 if thorough else 150))]
+    pipeline.check_decks(chk, sub, lambda d, r: [adeck.lattice_opts(d) + [f for f in common_univ.FLAGS if r.random() < 0.3]],
+                         chk.seed)
+    chk.cov['traces_validated_against_impl'] += chk.extra.get('pipeline_traces', 0)
     ids = sorted(recs)
     for tid in ids[:1] + ids[len(ids) // 2:len(ids) // 2 + 2]:
         chk.sample({'deck_text': recs[tid]['text'], 'opts': meta[tid]['opts'], 'verdict': verdicts.get(tid)})
